@@ -588,6 +588,10 @@ def migration_app_runs(ctx):
 
 def replay(ctx, obj):
     """re-run one upgrade with the fault at the recorded write index and judge the signal trace"""
+    _r = obj.get('replay', obj)
+    if isinstance(_r, dict) and _r.get('scenario'):
+        print('this scenario (%s) is rebuilt by the check itself: VERIF_SEED=%s ./check C17' % (_r['scenario'], obj.get('seed')))
+        return 0
     import random
     from .. import dbrig
     evorig.setup()
